@@ -31,34 +31,44 @@ NewAtRoom(room) ==
     /\ base' = 0 /\ cur' = 0 /\ limit' = IF room >= Inf THEN Inf ELSE room
     /\ calls' = <<>> /\ ret' = [n |-> 0, err |-> "nil"]
 
-\* error of a write that offered m of Len(p) bytes to the underlying writer, which failed iff e
-WriteErr(p, m, e) == IF e THEN "inj" ELSE IF m < Len(p) THEN "ShortWrite" ELSE "nil"
+\* error of a write that offered m of n bytes to the underlying writer, which failed iff e
+WriteErrL(n, m, e) == IF e THEN "inj" ELSE IF m < n THEN "ShortWrite" ELSE "nil"
+WriteErr(p, m, e) == WriteErrL(Len(p), m, e)
 
-\* k: bytes the underlying writer accepts (at most what it is offered); e: it reports an error.
+\* What Write / WriteAt do with a buffer of n bytes, as a function of the state (the contents of the buffer play
+\* no part in it): whether the underlying writer is called, where, with how many bytes (m), the new cursor, the
+\* result.  k: bytes the underlying writer accepts (at most what it is offered); e: it reports an error.
 \* A writer that reports no error accepts everything (io.WriterAt contract).
-Write(p, k, e) ==
+WriteOutcome(n, k, e) ==
     IF cur >= limit
-    THEN /\ ret' = [n |-> 0, err |-> "ShortWrite"] /\ calls' = <<>>
-         /\ UNCHANGED <<base, limit, cur>>
-    ELSE LET m == Min2(Len(p), limit - cur)
-             q == SubSeq(p, 1, m)
-         IN /\ k \in 0..m /\ (~e => k = m)
-            /\ calls' = << [off |-> cur, p |-> q, k |-> k, e |-> e] >>
-            /\ cur' = cur + k
-            /\ ret' = [n |-> k, err |-> WriteErr(p, m, e)]
-            /\ UNCHANGED <<base, limit>>
-
-WriteAt(p, off, k, e) ==
+    THEN [made |-> FALSE, off |-> 0, m |-> 0, cur |-> cur, ret |-> [n |-> 0, err |-> "ShortWrite"]]
+    ELSE LET m == Min2(n, limit - cur)
+         IN [made |-> TRUE, off |-> cur, m |-> m, cur |-> cur + k, ret |-> [n |-> k, err |-> WriteErrL(n, m, e)]]
+WriteAtOutcome(n, off, k, e) ==
     IF off < 0 \/ off >= limit - base
-    THEN /\ ret' = [n |-> 0, err |-> "ShortWrite"] /\ calls' = <<>>
-         /\ UNCHANGED <<base, limit, cur>>
+    THEN [made |-> FALSE, off |-> 0, m |-> 0, cur |-> cur, ret |-> [n |-> 0, err |-> "ShortWrite"]]
     ELSE LET abs == off + base
-             m == Min2(Len(p), limit - abs)
-             q == SubSeq(p, 1, m)
-         IN /\ k \in 0..m /\ (~e => k = m)
-            /\ calls' = << [off |-> abs, p |-> q, k |-> k, e |-> e] >>
-            /\ ret' = [n |-> k, err |-> WriteErr(p, m, e)]
-            /\ UNCHANGED <<base, limit, cur>>     \* WriteAt never moves the cursor
+             m == Min2(n, limit - abs)
+         IN [made |-> TRUE, off |-> abs, m |-> m, cur |-> cur,      \* WriteAt never moves the cursor
+             ret |-> [n |-> k, err |-> WriteErrL(n, m, e)]]
+EnvOK(w, k, e) == w.made => (k \in 0..w.m /\ (~e => k = w.m))
+
+\* the step with the buffer's contents: the call carries the first m bytes of p
+SWStep(w, p, k, e) ==
+    /\ EnvOK(w, k, e)
+    /\ calls' = IF w.made THEN << [off |-> w.off, p |-> SubSeq(p, 1, w.m), k |-> k, e |-> e] >> ELSE <<>>
+    /\ cur' = w.cur /\ ret' = w.ret /\ UNCHANGED <<base, limit>>
+Write(p, k, e)        == SWStep(WriteOutcome(Len(p), k, e), p, k, e)
+WriteAt(p, off, k, e) == SWStep(WriteAtOutcome(Len(p), off, k, e), p, k, e)
+
+\* the same steps for a buffer given by its LENGTH only (buffers of 2^30 bytes and more cannot be written down):
+\* the call carries zeros, of which only the number matters
+SWStepL(w, k, e) ==
+    /\ EnvOK(w, k, e)
+    /\ calls' = IF w.made THEN << [off |-> w.off, p |-> <<>>, n |-> w.m, k |-> k, e |-> e] >> ELSE <<>>
+    /\ cur' = w.cur /\ ret' = w.ret /\ UNCHANGED <<base, limit>>
+WriteL(n, k, e)        == SWStepL(WriteOutcome(n, k, e), k, e)
+WriteAtL(n, off, k, e) == SWStepL(WriteAtOutcome(n, off, k, e), k, e)
 
 Seek(off, whence) ==
     IF whence \notin {0, 1, 2}
@@ -73,9 +83,10 @@ Size ==
     /\ ret' = [n |-> limit - base, err |-> "nil"] /\ calls' = <<>> /\ UNCHANGED <<base, limit, cur>>
 
 \* ---- the property, as state invariants on what reached the underlying writer
+CallLen(c) == IF "n" \in DOMAIN c THEN c.n ELSE Len(c.p)
 Confined ==
     \A i \in DOMAIN calls :
         /\ calls[i].off >= base /\ calls[i].off < limit
-        /\ calls[i].off + Len(calls[i].p) <= limit
+        /\ calls[i].off + CallLen(calls[i]) <= limit
 CursorNotBeforeBase == cur >= base
 =============================================================================
